@@ -96,6 +96,9 @@ Section Flags.
   Definition fl_clear_blocking (fl : Z) : Z := Z.land fl (255 - B).  (* fcntl O_NONBLOCK, FIONBIO 1 *)
   Definition fl_set_blocking (fl : Z) : Z := Z.lor fl B.         (* FIONBIO 0 *)
   Definition fl_close (fl : Z) : Z := 0.
+  (* F_SETFL v on a managed descriptor when fcntl tracks the caller's mode *)
+  Definition fl_setfl (fl : Z) (nonblock : bool) : Z :=
+    if nonblock then fl_clear_blocking fl else fl_set_blocking fl.
 End Flags.
 
 (* ------------------------------------------------------------------------ *)
@@ -182,9 +185,11 @@ Definition idx (max_fd fd : Z) : option nat := if in_range max_fd fd then Some (
 Definition site (bc : bool) (a : arr) (max_fd fd : Z) : list (arr * Z) :=
   if bc then (if in_range max_fd fd then [(a, fd)] else []) else [(a, fd)].
 
+(* fc_tracks: fcntl(F_SETFL, v) sets the caller-visible mode from v & O_NONBLOCK for every v
+   (and F_GETFL reports it), instead of only recognising v == O_NONBLOCK exactly *)
 Record bcheck := {
   bc_sb : bool; bc_cl : bool; bc_fdclosed : bool; bc_fc : bool; bc_io : bool;
-  fc_managed : bool; io_managed : bool }.
+  fc_managed : bool; io_managed : bool; fc_tracks : bool }.
 
 Section Entry.
   Variable K : bcheck.
@@ -197,6 +202,7 @@ Section Entry.
   (* fcntl(fd, F_SETFL, O_NONBLOCK): intercepted (no real call, returns 0) when
      the tests in front of the update pass; [fl] = byte of an in-range fd *)
   Definition fcntl_intercepts (fd fl : Z) : bool :=
+    negb (fc_tracks K) &&       (* the tracking form always makes the real call *)
     (if bc_fc K then in_range max_fd fd else true) &&
     (if fc_managed K then negb (Z.eqb (Z.land fl W) 0) else true).
   Definition fcntl_sites (fd fl : Z) : list (arr * Z) :=
@@ -313,7 +319,7 @@ Definition dir_of_code (z : Z) : dir := match z with 1 => DirIn | 2 => DirOut | 
 Record rshim := { r_code : Z; r_shim : shim }.
 
 Record fiber := {
-  f_tid : Z; f_shim : option shim; f_code : Z; f_fd : Z; f_dw : bool;
+  f_tid : Z; f_shim : option shim; f_code : Z; f_fd : Z; f_arg : Z; f_dw : bool;
   f_phase : phase; f_nreal : nat; f_waiting : bool; f_closed : bool }.
 
 Record rstate := {
@@ -326,7 +332,7 @@ Definition setfl (l : list (Z * Z)) (k v : Z) : list (Z * Z) :=
   (k, v) :: filter (fun p => negb (Z.eqb (fst p) k)) l.
 
 Definition idle (t : Z) : fiber :=
-  {| f_tid := t; f_shim := None; f_code := 0; f_fd := 0; f_dw := false; f_phase := PRet FromClosed;
+  {| f_tid := t; f_shim := None; f_code := 0; f_fd := 0; f_arg := 0; f_dw := false; f_phase := PRet FromClosed;
      f_nreal := 0; f_waiting := false; f_closed := false |}.
 Fixpoint getf (l : list fiber) (t : Z) : fiber :=
   match l with [] => idle t | f :: r => if Z.eqb (f_tid f) t then f else getf r t end.
@@ -356,12 +362,12 @@ Definition outcome_ok (o : outcome) (v ec : Z) : bool :=
 (* mark every fiber waiting on fd as closed-meanwhile (fiber_fd_closed) *)
 Definition close_waiters (wake_all : bool) (l : list fiber) (fd : Z) : list fiber :=
   map (fun f => if f_waiting f && Z.eqb (f_fd f) fd
-                then {| f_tid := f_tid f; f_shim := f_shim f; f_code := f_code f; f_fd := f_fd f; f_dw := f_dw f;
-                        f_phase := f_phase f; f_nreal := f_nreal f; f_waiting := true; f_closed := true |}
+                then {| f_tid := f_tid f; f_shim := f_shim f; f_code := f_code f; f_fd := f_fd f; f_arg := f_arg f;
+                        f_dw := f_dw f; f_phase := f_phase f; f_nreal := f_nreal f; f_waiting := true; f_closed := true |}
                 else f) l.
 
 Definition with_phase (f : fiber) (p : phase) (n : nat) (waiting closed : bool) : fiber :=
-  {| f_tid := f_tid f; f_shim := f_shim f; f_code := f_code f; f_fd := f_fd f; f_dw := f_dw f;
+  {| f_tid := f_tid f; f_shim := f_shim f; f_code := f_code f; f_fd := f_fd f; f_arg := f_arg f; f_dw := f_dw f;
      f_phase := p; f_nreal := n; f_waiting := waiting; f_closed := closed |}.
 
 (* a fiber that was waiting and now acts again has been woken *)
@@ -383,7 +389,7 @@ Definition rstep (C : rconf) (s : rstate) (tid kind a b c : Z) : rstate * Z :=
       let fl := lookup (rs_flags s) b in
       let inr := in_range (c_max C) b in
       let dw := sh_dontwait sh && Z.odd c in
-      let mk p := {| f_tid := tid; f_shim := Some sh; f_code := a; f_fd := b; f_dw := dw; f_phase := p;
+      let mk p := {| f_tid := tid; f_shim := Some sh; f_code := a; f_fd := b; f_arg := c; f_dw := dw; f_phase := p;
                      f_nreal := 0; f_waiting := false; f_closed := false |} in
       match sh_id sh with
       | SClose =>
@@ -391,7 +397,15 @@ Definition rstep (C : rconf) (s : rstate) (tid kind a b c : Z) : rstate * Z :=
         let fls := if inr then setfl (rs_flags s) b 0 else rs_flags s in
         ({| rs_flags := fls; rs_fibers := putf fibs (mk PReal) |}, 0)
       | SFcntl =>
-        (* c = 1: F_SETFL with exactly O_NONBLOCK -> intercepted when the tests pass *)
+        (* c = 0 F_GETFL, 1 F_SETFL with exactly O_NONBLOCK, 2 F_SETFL without O_NONBLOCK,
+           3 F_SETFL with O_NONBLOCK and other bits *)
+        if fc_tracks (c_K C) then
+          let managed := inr && negb (Z.eqb (Z.land fl (c_W C)) 0) in
+          let fls := if managed && negb (Z.eqb c 0)
+                     then setfl (rs_flags s) b (fl_setfl (c_B C) fl (negb (Z.eqb c 2))) else rs_flags s in
+          ({| rs_flags := fls; rs_fibers := putf (rs_fibers s) (mk PReal) |}, 0)
+        else
+        (* exact form only: intercepted when the tests pass *)
         if Z.eqb c 1 && fcntl_intercepts (c_K C) (c_W C) (c_max C) b fl then
           let fls := if inr then setfl (rs_flags s) b (fl_clear_blocking (c_B C) fl) else rs_flags s in
           ({| rs_flags := fls; rs_fibers := putf (rs_fibers s) (mk (PRet (FromReal (ROk 0)))) |}, 0)
@@ -416,7 +430,17 @@ Definition rstep (C : rconf) (s : rstate) (tid kind a b c : Z) : rstate * Z :=
       else
       match f_phase f with
       | PReal =>
-        let r := res_of b (c / 1000) in
+        let r0 := res_of b (c / 1000) in
+        (* tracked F_GETFL: O_NONBLOCK is hidden while the caller-visible mode is blocking *)
+        let flb := lookup (rs_flags s) (f_fd f) in
+        let r := match sh_id sh, r0 with
+                 | SFcntl, ROk v =>
+                   if fc_tracks (c_K C) && Z.eqb (f_arg f) 0 && in_range (c_max C) (f_fd f) &&
+                      negb (Z.eqb (Z.land flb (c_W C)) 0) && negb (Z.eqb (Z.land flb (c_B C)) 0) &&
+                      Z.testbit v 11
+                   then ROk (v - 2048) else r0
+                 | _, _ => r0
+                 end in
         let p := after_real sh (f_dw f) (sb_now C s (f_fd f)) (f_nreal f) r in
         ({| rs_flags := rs_flags s; rs_fibers := putf (rs_fibers s) (with_phase f p (S (f_nreal f)) false false) |}, 0)
       | PWait => (s, 120)           (* model waits here, implementation called *)
@@ -488,14 +512,14 @@ Fixpoint decode_shims (n : nat) (l : list Z) : list rshim * list Z :=
     end
   end.
 
-(* case := B W max_fd  bc_sb bc_cl bc_fdclosed bc_fc bc_io fc_managed io_managed
+(* case := B W max_fd  bc_sb bc_cl bc_fdclosed bc_fc bc_io fc_managed io_managed fc_tracks
            nmask mask...  nshims (code shape dir dontwait retry newfd)...  log (5 per entry) *)
 Definition run_case (l : list Z) : list Z :=
   match l with
-  | B :: W :: mx :: k1 :: k2 :: k3 :: k4 :: k5 :: k6 :: k7 :: nm :: r =>
+  | B :: W :: mx :: k1 :: k2 :: k3 :: k4 :: k5 :: k6 :: k7 :: k8 :: nm :: r =>
     let b z := Z.eqb z 1 in
     let K := {| bc_sb := b k1; bc_cl := b k2; bc_fdclosed := b k3; bc_fc := b k4; bc_io := b k5;
-                fc_managed := b k6; io_managed := b k7 |} in
+                fc_managed := b k6; io_managed := b k7; fc_tracks := b k8 |} in
     let mtoks := firstn (Z.to_nat nm) r in
     match decode_mask (S (length mtoks)) mtoks with
     | Some (m, []) =>
